@@ -2,6 +2,8 @@ package props
 
 import (
 	"fmt"
+	"github.com/cosmos/cosmos-sdk/codec"
+	"github.com/jackalLabs/canine-chain/v4/app"
 	"strings"
 
 	sdk "github.com/cosmos/cosmos-sdk/types"
@@ -128,14 +130,29 @@ func runC11History(rc *RunCtx) {
 	sp := storageParams(50, 100, 1024)
 	sp.CollateralPrice = int64(1_000 + rc.Intn(5_000_000))
 	const nAcc = 6
-	c, err := chain.New(chain.Config{Seed: rc.Seed, NAcc: nAcc, Storage: sp})
+	perm := rc.Rng.Perm(nAcc - 1)
+	O, S, T, F := perm[0]+1, perm[1]+1, perm[2]+1, perm[3]+1
+	// a name of the owner that is already expired when the stranger acts (its record stays in the store)
+	chain.SetBech32()
+	ownerExpired := "lapsed.jkl"
+	ownerAddr0 := sdk.AccAddress(chain.DeriveKey(rc.Seed, O).PubKey().Address()).String()
+	c, err := chain.New(chain.Config{Seed: rc.Seed, NAcc: nAcc, Storage: sp,
+		RnsNames: []rnstypes.Names{{Name: "lapsed", Tld: "jkl", Expires: 1, Value: ownerAddr0, Data: "{}", Subdomains: []*rnstypes.Names{}}},
+		// feeds carried in the genesis file whose owner is not an address of this chain (another prefix, a plain label):
+		// nobody can sign as their owner, so nobody may rewrite them
+		Mutate: func(cdc codec.JSONCodec, gs app.GenesisState) {
+			var og oracletypes.GenesisState
+			cdc.MustUnmarshalJSON(gs[oracletypes.ModuleName], &og)
+			og.FeedList = append(og.FeedList,
+				oracletypes.Feed{Owner: "cosmos1arsaayyj5tash86mwqudmcs2fd5jt5zgp07gl8", Name: "genesisfeed", Data: `{"price":"1"}`},
+				oracletypes.Feed{Owner: "oracle-admin", Name: "labelfeed", Data: `{"price":"2"}`})
+			gs[oracletypes.ModuleName] = cdc.MustMarshalJSON(&og)
+		}})
 	if err != nil {
 		rc.Abort("init: " + err.Error())
 		return
 	}
 	defer c.Close()
-	perm := rc.Rng.Perm(nAcc - 1)
-	O, S, T, F := perm[0]+1, perm[1]+1, perm[2]+1, perm[3]+1
 	ob, sb, tb, fb := c.Accs[O].Bech, c.Accs[S].Bech, c.Accs[T].Bech, c.Accs[F].Bech
 	name := func(a string) string {
 		switch a {
@@ -311,7 +328,7 @@ func runC11History(rc *RunCtx) {
 				return &oracletypes.MsgCreateFeed{Creator: sb, Name: pickS(ownerFeed, ownerFeed, strings.ToUpper(ownerFeed), " "+ownerFeed, ownerFeed+" ", strings.Title(ownerFeed), fmt.Sprintf("new%d", rc.Intn(5)), ob)}
 			}},
 			{"UpdateFeed", 4, sFeed, func() sdk.Msg {
-				return &oracletypes.MsgUpdateFeed{Creator: sb, Name: pickS(ownerFeed, ownerFeed, ownerFeed, strings.ToUpper(ownerFeed), ownerFeed+" ", strangerFeed, "new0"), Data: pickS(`{"price":"0"}`, ob, "")}
+				return &oracletypes.MsgUpdateFeed{Creator: sb, Name: pickS(ownerFeed, ownerFeed, ownerFeed, strings.ToUpper(ownerFeed), ownerFeed+" ", strangerFeed, "new0", "genesisfeed", "labelfeed"), Data: pickS(`{"price":"0"}`, ob, "")}
 			}},
 			{"DeleteNotification", 6, sInbox, func() sdk.Msg {
 				return &notiftypes.MsgDeleteNotification{Creator: sb, From: pickS(ob, ob, ob, tb, tb, sb, fb), Time: times[rc.Intn(len(times))]}
@@ -321,7 +338,7 @@ func runC11History(rc *RunCtx) {
 				return &notiftypes.MsgBlockSenders{Creator: sb, ToBlock: l[rc.Intn(len(l))]}
 			}},
 			{"MakePrimary", 2, sName, func() sdk.Msg {
-				return &rnstypes.MsgMakePrimary{Creator: sb, Name: pickS(ownerName, ownerName2, strangerName, strings.ToUpper(ownerName))}
+				return &rnstypes.MsgMakePrimary{Creator: sb, Name: pickS(ownerName, ownerName2, ownerExpired, ownerExpired, strangerName, strings.ToUpper(ownerName))}
 			}},
 			{"DeleteFile", 3, sFile, func() sdk.Msg {
 				if sFile && rc.Chance(0.25) {
